@@ -15,8 +15,8 @@
    is per address "ORDER BY updround").  One consensus version per history ([oparams]).
    Abstractions, all named in the trusted base: the baseOnlineAccounts LRU is read through to the
    table (makeCompactOnlineAccountDeltas.oldAcct = latest row of the address); the
-   expiredCirculationCache memo is not modelled; AccountsOnlineTop's 1024-row batches are one
-   fetch; container/heap is a sort; the accountsMu/accountsReadCond retry loops collapse (single
+   expiredCirculationCache memo is not modelled; AccountsOnlineTop's SQL ordering and container/heap
+   are the same insertion sort; the accountsMu/accountsReadCond retry loops collapse (single
    thread: validThrough = currentDbRound).  uint64 arithmetic through model/Overflow.v.
    No proofs in this file. *)
 From Coq Require Import NArith List Bool.
@@ -588,52 +588,81 @@ Fixpoint sub_invalid (p : oparams) (level : N) (inv : list (N * oacc)) (tot : N)
       else sub_invalid p level r t1
   end.
 
-Definition top_online (p : oparams) (s : ostate) (rnd voteRnd : N) (n : N) (level : N)
+(* the candidate loop of TopOnlineAccounts: AccountsOnlineTop(rnd, offset, batchSize) returns rows
+   [offset, offset+batchSize) of the accounts online at rnd in the order "normalizedonlinebalance
+   DESC, address DESC" ([sorted]); batches are fetched while len(candidates) < n + len(modified);
+   a short batch ends the loop.  Returns the valid candidates and the invalid accounts seen. *)
+Fixpoint top_fetch (fuel batch need : nat) (voteRnd : N) (sorted : list oacc) (off : nat)
+         (cands inv : list oacc) : list oacc * list oacc :=
+  if Nat.leb need (length cands) then (cands, inv) else
+  match fuel with
+  | O => (cands, inv)
+  | S f =>
+      let b := firstn batch (skipn off sorted) in
+      let cands' := cands ++ filter (fun oa => valid_in (t_vfirst oa) (t_vlast oa) voteRnd) b in
+      let inv' := inv ++ filter (fun oa => negb (valid_in (t_vfirst oa) (t_vlast oa) voteRnd)) b in
+      if Nat.ltb (length b) batch then (cands', inv')
+      else top_fetch f batch need voteRnd sorted (off + batch) cands' inv'
+  end.
+
+(* the list part of TopOnlineAccounts: candidates from the DB, overridden by the deltas, the n
+   first in heap order.  None = a Go panic.  Also returns the invalid accounts (legacy weight). *)
+Definition top_list (batch : nat) (p : oparams) (s : ostate) (off : nat) (rnd voteRnd n : N)
+  : option (list oacc * list (N * oacc)) :=
+  match top_scan (op_unit p) voteRnd (firstn off (o_deltas s)) with
+  | None => None
+  | Some (md, inv) =>
+      let need := (N.to_nat n + length md)%nat in
+      (* nothing is fetched when need = 0 *)
+      match (if Nat.eqb need 0 then Some [] else db_online (op_unit p) rnd (o_rows s)) with
+      | None => None
+      | Some dbl =>
+          let sorted := top_sort dbl in
+          let '(cand_db, inv_db) := top_fetch (Datatypes.S (length sorted)) batch need voteRnd sorted 0 [] [] in
+          (* invalid accounts from the DB do not override those from the deltas *)
+          let inv_all := fold_left (fun iv oa => match aget (t_addr oa) iv with
+                                                 | Some _ => iv | None => aset (t_addr oa) oa iv end)
+                                   inv_db inv in
+          (* candidates: DB, then overridden by the deltas *)
+          let cands0 := map (fun oa => (t_addr oa, oa)) cand_db in
+          let cands := fold_left (fun c km => match snd km with
+                                              | None => adel (fst km) c
+                                              | Some oa => aset (fst km) oa c end) md cands0 in
+          Some (firstn (N.to_nat n) (top_sort (map snd cands)), inv_all)
+      end
+  end.
+
+Definition top_online_b (batch : nat) (p : oparams) (s : ostate) (rnd voteRnd : N) (n : N) (level : N)
   : res (list oacc * N) :=
   match round_offset s rnd with
   | OffErr => RErr
   | ro =>
       let off := match ro with OffOk o => o | _ => O end in
-      match top_scan (op_unit p) voteRnd (firstn off (o_deltas s)) with
+      match top_list batch p s off rnd voteRnd n with
       | None => RPanic
-      | Some (md, inv) =>
-          (* candidates from the DB: fetched only while len(candidates) < n + len(modified) *)
-          let fetch := 0 <? n + N.of_nat (length md) in
-          match (if fetch then db_online (op_unit p) rnd (o_rows s) else Some []) with
-          | None => RPanic
-          | Some dbl =>
-              let cand_db := filter (fun oa => valid_in (t_vfirst oa) (t_vlast oa) voteRnd) dbl in
-              let inv_db := filter (fun oa => negb (valid_in (t_vfirst oa) (t_vlast oa) voteRnd)) dbl in
-              (* invalid accounts from the DB do not override those from the deltas *)
-              let inv_all := fold_left (fun iv oa => match aget (t_addr oa) iv with
-                                                     | Some _ => iv | None => aset (t_addr oa) oa iv end)
-                                       inv_db inv in
-              (* candidates: DB, then overridden by the deltas *)
-              let cands0 := map (fun oa => (t_addr oa, oa)) cand_db in
-              let cands := fold_left (fun c km => match snd km with
-                                                  | None => adel (fst km) c
-                                                  | Some oa => aset (fst km) oa c end) md cands0 in
-              let top := firstn (N.to_nat n) (top_sort (map snd cands)) in
-              match params_ex s rnd with
-              | None => RErr
-              | Some rp =>
-                  let total := rp_supply rp in
-                  if op_exclude p then
-                    match expired_circulation p s rnd voteRnd rp with
-                    | ROk ex => let '(r, o) := osub 64 total ex in if o then RErr else ROk (top, r)
-                    | RErr => RErr
-                    | RPanic => RPanic
-                    end
-                  else
-                    match sub_invalid p level (map (fun kv => (fst kv, snd kv)) inv_all) total with
-                    | ROk r => ROk (top, r)
-                    | RErr => RErr
-                    | RPanic => RPanic
-                    end
-              end
+      | Some (top, inv_all) =>
+          match params_ex s rnd with
+          | None => RErr
+          | Some rp =>
+              let total := rp_supply rp in
+              if op_exclude p then
+                match expired_circulation p s rnd voteRnd rp with
+                | ROk ex => let '(r, o) := osub 64 total ex in if o then RErr else ROk (top, r)
+                | RErr => RErr
+                | RPanic => RPanic
+                end
+              else
+                match sub_invalid p level inv_all total with
+                | ROk r => ROk (top, r)
+                | RErr => RErr
+                | RPanic => RPanic
+                end
           end
       end
   end.
+
+(* batchSize := uint64(1024) in the Go code *)
+Definition top_online := top_online_b 1024.
 
 (* ---------- genesis ---------- *)
 (* tracker DB initialisation (sqlitedriver performOnlineAccountsTableMigration on the fresh
